@@ -602,6 +602,37 @@ pub async fn record() {
         arr_rt!(65534);
         arr_rt!(65535);
     }
+    // a burst: several hundred requests in flight at once on ONE shared connection (more than an HTTP/2 connection carries
+    // concurrently by default) and as many on connections of their own, every payload different: each caller must get the reply
+    // to ITS request, and the handler must have run once per request
+    {
+        let n_burst: u64 = if thorough { 1200 } else { 320 };
+        for shared in [true, false] {
+            let before = runs.load(Ordering::SeqCst);
+            let mut tasks = vec![];
+            for i in 0..n_burst {
+                let client = if shared { next_client().clone() } else { RpcClient::<Echo>::new(Channel::connect(addr)) };
+                let v = WithVec { id: 1_000_000 + i, data: (0..(i % 700) as usize).map(|j| ((j as u64 * 31 + i) % 251) as u8).collect() };
+                tasks.push(tokio::spawn(async move {
+                    let r = client.send(&v).await;
+                    match r {
+                        Ok(view) => (true, view.deserialize_view().map(|b: WithVec| b == v).unwrap_or(false)),
+                        Err(_) => (false, false),
+                    }
+                }));
+            }
+            let mut outcomes = vec![];
+            for t in tasks {
+                outcomes.push(t.await.unwrap_or((false, false)));
+            }
+            let ran = runs.load(Ordering::SeqCst) - before;
+            for (i, (ok, same)) in outcomes.into_iter().enumerate() {
+                rt += 1;
+                writeln!(f, "{}", json!({"ev": "roundtrip", "type": "WithVec", "sent": format!("burst of {n_burst}, request {i}, {}", if shared { "shared connection" } else { "own connection" }),
+                                         "ok": ok, "replyEqualsSent": same, "handlerRuns": if ran == n_burst { 1 } else { ran }})).unwrap();
+            }
+        }
+    }
     // replies that are raw bodies (streamed, not framed): the client reads exactly the bytes the handler produced
     {
         let raw_client = RpcClient::<RawEcho>::new(Channel::connect(addr));
